@@ -464,3 +464,20 @@ def run(ctx):
     ctx.rule("R12.8", "explicit --ignore / --exts / --filter and --ignore-file contents are consulted for every probed path")
     ctx.borrow("C11", ["R11.2"], "R12.8", "per path the ignore patterns come first, then extensions / filters: no explicit option shadows another")
     ctx.borrow("C03", ["R03.2"], "R12.8", "the root node that holds explicit --ignore-file contents is reached from every path (walk to the parent)")
+
+    # ---- R12.9 explicit files keep their listed order when loaded (owned by C03), and an ignore-discovery failure is not swallowed
+    ctx.rule("R12.9", "--ignore-file contents are loaded in the order given (later files win), under every flag mix")
+    ctx.borrow("C03", ["R03.3"], "R12.9", "IgnoreFilter::new consumes the listed files through an order-preserving combinator")
+    # dirs::ignores() is also where the explicit --ignore-file entries are appended: its failure must stop the filterer's construction, not
+    # continue with an empty list (which silently drops the explicit files under exactly the flag mixes that run discovery)
+    try:
+        wf = ctx.anchor_one("R12.9", "WatchexecFilterer::new coroutine", [c for c in ctx.facts.children(ctx.anchor_fn("R12.9", "watchexec_cli::filterer::WatchexecFilterer::new")) if c.kind == "coroutine"])
+        rw = thir.root(wf)
+        with pathx.reading_through(rw):
+            tried = [pathx.desc(x) for x in thir.walk(rw) if x.get("k") == "match" and str(x.get("src", "")).startswith("TryDesugar")]
+            called = [nd for c, nd in thir.calls_in(rw) if strip_generics(c).endswith("dirs::ignores")]
+        okp = len(called) == 1 and any(t.startswith("await dirs::ignores(") and t.endswith(")?") and t.count("dirs::ignores(") == 1 for t in tried)
+        ctx.require(okp, "R12.9", "ignores-error-propagates", "WatchexecFilterer::new propagates a failure of dirs::ignores() with `?`", wf.loc(wf.line), detail=str([t for t in tried if "ignores" in t])[:200],
+                    fail="WatchexecFilterer::new no longer propagates a failure of dirs::ignores(): it carries on without the list that also holds the explicit --ignore-file entries")
+    except Skip:
+        pass
